@@ -189,8 +189,7 @@ func checkC02(p *Prog, res *Result, tier string) {
 	}
 
 	// ---- R5: per-key monotonicity rests on the guards of the index CAS (C01-R3 / C01-R4) ----
-	sub1 := newResult("C01")
-	checkC01(p, sub1, tier)
+	sub1 := p.subResult("C01", tier)
 	for _, o := range sub1.Obls {
 		if o.Rule == "C01-R3" || o.Rule == "C01-R4" {
 			res.add("C02-R5", o.Rule+" "+o.Construct, o.Status, o.Pos, o.Detail)
